@@ -131,9 +131,42 @@ flow answering
 '''
 
 
+V2PROG = sl("v2prog", "plain")
+if V2PROG == "events" and not SHIPPED:
+    # input rails as well, and a bot message that is triggered by a non-user event
+    COLANG_V2 = '''
+import core
+import guardrails
+
+flow input rails $input_text
+  $ok = await In1Action(text=$input_text)
+  if not $ok
+    bot say "REFUSED_IN"
+    abort
+
+flow output rails $output_text
+  out one $output_text
+''' + _out_v2(1) + '''
+flow main
+  activate answering
+  activate proactive
+
+flow answering
+  user said something as $u
+  $reply = await ProduceReplyAction()
+  bot say $reply
+
+flow proactive
+  match ProactiveTrigger()
+  $reply = await ProduceReplyAction()
+  bot say $reply
+'''
+
+
 class Rec:
     log = []
     verdicts = []
+    in_verdicts = []
     turn = 0
     replies = []
 
@@ -168,11 +201,19 @@ def _mk_v1(i):
 
 def _mk_v2(i):
     async def out(text=None, **kw):
+        if V2PROG == "events" and str(text).startswith("REFUSED"):
+            return True  # the input rail's own refusal also passes through `bot say`; the verdict under test is about the LLM text
         Rec.log.append(("out%d" % i, text))
         v = conc(Rec.verdicts[Rec.turn][i - 1], 0, 1)
         return v == 0
 
     return out
+
+
+async def _in1(text=None, **kw):
+    Rec.log.append(("in1", text))
+    v = conc(Rec.in_verdicts[Rec.turn], 0, 1)
+    return v == 0
 
 
 async def _produce_reply(**kw):
@@ -185,6 +226,7 @@ if VER == "1.0":
 else:
     acts = {"self_check_output": _shipped_check} if SHIPPED else {"Out%dAction" % i: _mk_v2(i) for i in range(1, N + 1)}
     acts["ProduceReplyAction"] = _produce_reply
+    acts["In1Action"] = _in1
     _y2 = "enable_rails_exceptions: %s\n" % ("True" if EXC else "False")
     if SHIPPED:
         _y2 += "prompts:\n  - task: self_check_output\n    content: check {{ bot_response }}\n"
@@ -327,6 +369,116 @@ def checked_v2(a0: int, a1: int, b0: int, b1: int, c0: int, c1: int) -> bool:
     return why is None
 
 
+def checked_v2_events(k0: int, i0: int, a0: int, k1: int, i1: int, b0: int, k2: int, i2: int, c0: int) -> bool:
+    """
+    Colang 2.x + guardrails library with input and output rails; per turn the bot text is triggered by a user message (k=0; input rail verdict i) or by a
+    non-user event (k=1); whatever happened in earlier turns (in particular a rejected input), every LLM text goes through the output rail.
+    pre: 0 <= k0 <= 1 and 0 <= i0 <= 1 and 0 <= a0 <= 1 and 0 <= k1 <= 1 and 0 <= i1 <= 1 and 0 <= b0 <= 1 and 0 <= k2 <= 1 and 0 <= i2 <= 1 and 0 <= c0 <= 1
+    pre: TURNS > 2 or (k2 == 0 and i2 == 0 and c0 == 0)
+    pre: _fixed(k0=k0, i0=i0, k1=k1)
+    post: _
+    """
+    global LAST_INFO
+    stubs.reset()
+    rails.reset_app(APP)
+    Rec.verdicts = [[a0], [b0], [c0]]
+    Rec.in_verdicts = [i0, i1, i2]
+    LLM.reset(script=[])
+    state = None
+    why = None
+    info = []
+    for t in range(TURNS):
+        Rec.turn = t
+        Rec.log = []
+        kind = conc([k0, k1, k2][t], 0, 1)
+        msg = {"role": "user", "content": "hi %d" % t} if kind == 0 else {"role": "event", "event": {"type": "ProactiveTrigger"}}
+        try:
+            res = rails.generate(APP, [msg], state=({} if state is None else state))
+        except rails.Escaped as e:
+            why = "turn %d: generate raised %s" % (t + 1, e)
+            break
+        state = res.state
+        texts = [m.get("content") for m in res.response]
+        text = "LLM text %d" % (t + 1)
+        ran = list(Rec.log)
+        want = []
+        if kind == 0:
+            want.append(("in1", "hi %d" % t))
+        if kind == 0 and Rec.in_verdicts[t] == 1:
+            expect = ["REFUSED_IN"]
+        else:
+            want.append(("out1", text))
+            expect = [text] if Rec.verdicts[t][0] == 0 else [_refusal(1)]
+        if [tuple(e) for e in ran] != want:
+            why = "rail actions %r, expected %r" % (ran, want)
+        elif texts != expect:
+            why = "response %r, expected %r" % (res.response, expect)
+        if not rails.is_tracing():
+            info.append({"kind": "user" if kind == 0 else "event", "input_verdict": int(Rec.in_verdicts[t]), "output_verdict": int(Rec.verdicts[t][0]), "response": res.response, "rails": ran})
+        if why:
+            why = "turn %d: %s" % (t + 1, why)
+            break
+    if not rails.is_tracing():
+        LAST_INFO = {"turns": info, "why": why}
+    return why is None
+
+
+def checked_v1_state(o0: int, t0: int, a0: int, o1: int, t1: int, b0: int) -> bool:
+    """
+    Colang 1.0, two calls of one conversation continued through the explicit `state`; per call the output rails may be disabled by the generation options (o=1).
+    A call with output rails enabled checks its LLM-generated message whatever the earlier call did (in particular a predefined message with output rails disabled).
+    pre: 0 <= o0 <= 1 and 0 <= t0 <= 1 and 0 <= a0 <= 2 and 0 <= o1 <= 1 and 0 <= t1 <= 1 and 0 <= b0 <= 2
+    pre: _fixed(o0=o0, t0=t0, o1=o1)
+    post: _
+    """
+    global LAST_INFO
+    stubs.reset()
+    rails.reset_app(APP)
+    Rec.verdicts = [[a0], [b0]]
+    state = None
+    why = None
+    info = []
+    for t in range(2):
+        Rec.turn = t
+        Rec.log = []
+        tid = conc([t0, t1][t], 0, 1)
+        off = conc([o0, o1][t], 0, 1)
+        LLM.reset(script=["  express greeting"] if tid == 0 else ["  ask question", "  bot respond", '  "%s"' % _llm_text(t)])
+        kw = {"options": {"rails": ["input", "dialog", "retrieval"]}} if off else {}
+        try:
+            res = rails.generate(APP, [{"role": "user", "content": USER[tid]}], state=({} if state is None else state), **kw)
+        except rails.Escaped as e:
+            why = "call %d: generate raised %s" % (t + 1, e)
+            break
+        state = res.state
+        v = Rec.verdicts[t][0]
+        raw = "Hello there!" if tid == 0 else _llm_text(t)
+        ran = [tuple(e) for e in Rec.log]
+        if tid == 1 and not off:
+            want_ran = [("out1", raw)]
+            expect = raw if v == 0 else (_refusal(1) if v == 1 else "REWRITTEN_OUT1")
+        else:
+            want_ran = []
+            expect = raw
+            if tid == 0 and not off:
+                ran = []  # whether predefined messages are passed to the output rails is not fixed by the property
+        if ran != want_ran:
+            why = "output rail invocations %r, expected %r" % (ran, want_ran)
+        elif EXC and tid == 1 and not off and v == 1:
+            if res.response[0].get("role") != "exception":
+                why = "expected the rail exception, got %r" % (res.response,)
+        elif res.response != [{"role": "assistant", "content": expect}]:
+            why = "response %r, expected %r" % (res.response, expect)
+        if not rails.is_tracing():
+            info.append({"user": USER[tid], "output_rails_disabled": bool(off), "verdict": int(v), "response": res.response, "rails": list(Rec.log)})
+        if why:
+            why = "call %d: %s" % (t + 1, why)
+            break
+    if not rails.is_tracing():
+        LAST_INFO = {"calls": info, "why": why}
+    return why is None
+
+
 def later_turn_twin(t0: int, a0: int, a1: int, t1: int, b0: int, b1: int, t2: int, c0: int, c1: int) -> bool:
     """
     Twin: claims turn 2's output rail is never invoked (must be refuted).
@@ -370,6 +522,12 @@ SPEC = {
          "tcond": 900, "tpath": 120, "bound": "v1, shipped `self check output` flow (action stubbed), 2 LLM-generated turns"},
         {"fn": "checked_v2", "tiers": ("quick", "thorough"), "slices": [{"n": 1, "exc": e, "ver": "2.x", "turns": 2, "shipped": 1, "fix": {"a0": a}} for e in (0, 1) for a in (0, 1)],
          "tcond": 900, "tpath": 180, "bound": "v2, shipped `self check output` flow (action stubbed), 2 turns"},
+        {"fn": "checked_v1_state", "tiers": ("quick", "thorough"), "slices": [{"n": 1, "exc": 0, "ver": "1.0", "turns": 2, "fix": {"o0": o, "t0": t, "o1": 0}} for o in (0, 1) for t in (0, 1)], "tcond": 900, "tpath": 120,
+         "bound": "v1, 2 calls continued through `state`, output rails disabled by options in the first call or not",
+         "smoke": [{"slice": {"n": 1, "exc": 0, "ver": "1.0", "turns": 2}, "args": dict(o0=1, t0=0, a0=0, o1=0, t1=1, b0=1)}]},
+        {"fn": "checked_v2_events", "tiers": ("quick", "thorough"), "slices": [{"n": 1, "exc": 0, "ver": "2.x", "turns": 2, "v2prog": "events", "fix": {"k0": k, "i0": i}} for k in (0, 1) for i in (0, 1) if not (k == 1 and i == 1)],
+         "tcond": 900, "tpath": 180, "bound": "v2 with input and output rails, user- and event-triggered bot messages, 2 turns",
+         "smoke": [{"slice": {"n": 1, "exc": 0, "ver": "2.x", "turns": 3, "v2prog": "events"}, "args": dict(k0=0, i0=1, a0=0, k1=1, i1=0, b0=1, k2=0, i2=0, c0=0)}]},
         {"fn": "checked_v2", "tiers": ("quick",), "slices": [{"n": 1, "exc": e, "ver": "2.x", "turns": 2, "fix": {"a0": a}} for e in (0, 1) for a in (0, 1)], "tcond": 900, "tpath": 180, "bound": "v2, 1 rail, 2 turns",
          "smoke": [{"slice": {"n": 1, "exc": 0, "ver": "2.x", "turns": 3}, "args": dict(a0=1, a1=0, b0=0, b1=0, c0=1, c1=0)},
                    {"slice": {"n": 2, "exc": 1, "ver": "2.x", "turns": 2}, "args": dict(a0=0, a1=1, b0=0, b1=0, c0=0, c1=0)}]},
